@@ -5,24 +5,19 @@
 From Coq Require Import Lia.
 From PegtlV Require Import Base Decode Grammar Engine EngineFacts AtomFacts Mono Analyze AnalyzeFacts AnalyzeSound AnalyzeCons.
 
-(* heads covered by the termination proof so far *)
-Definition head_covered_term (h : head) : bool :=
-  match h with
-  | HIfApply _ | HUntil1 | HIfMust _ => false            (* trait copies / names foreign rules: not covered by cons_sound either *)
-  | _ => true
-  end.
-Definition heads_covered_term (G : grammar) : bool := forallb (fun nd => head_covered_term (nhead nd)) G.
-
-Lemma covered_term_covered G : heads_covered_term G = true -> heads_covered G = true.
-Proof.
-  unfold heads_covered_term, heads_covered. rewrite !forallb_forall. intros H nd Hnd. specialize (H nd Hnd).
-  destruct (nhead nd); try discriminate H; reflexivity.
-Qed.
-
 (* match-level actions that re-enter the same rule under another action family can recurse for ever on their own
    (Action A: change_action< B >, Action B: change_action< A >): excluded *)
 Definition cfg_plain_actions (C : cfg) : Prop :=
   forall fam r fam', acts C fam r <> AKMatch (MChangeAction fam') /\ acts C fam r <> AKMatch (MChangeActionAndState fam').
+(* general form: switching the action family strictly decreases a bounded rank *)
+Definition switches (C : cfg) (fam : nat) (r : rid) (fam' : nat) : Prop :=
+  acts C fam r = AKMatch (MChangeAction fam') \/ acts C fam r = AKMatch (MChangeActionAndState fam').
+Definition cfg_actions_ranked (C : cfg) : Prop :=
+  exists (K : nat) (rk : nat -> nat), (forall fam, rk fam <= K) /\ (forall fam r fam', switches C fam r fam' -> rk fam' < rk fam).
+Lemma plain_ranked C : cfg_plain_actions C -> cfg_actions_ranked C.
+Proof.
+  intros H. exists 0, (fun _ => 0). split; [intros; lia|]. intros fam r fam' [E|E]; destruct (H fam r fam') as [K1 K2]; congruence.
+Qed.
 
 (* ---------- list decomposition helpers ---------- *)
 Lemma map_eq_app_cons {A B} (f : A -> B) : forall l pre x post, map f l = pre ++ x :: post ->
@@ -201,6 +196,24 @@ Proof.
   - exfalso. eapply Hc; eauto.
 Qed.
 
+Lemma until1_term n d cnd : T1 cnd -> forall c, len c < n -> len c <= L -> until1_loop C ev n d cnd c <> Oof.
+Proof.
+  intros Ht. induction n as [|n IH]; intros c Hn Hl; [lia|]. cbn [until1_loop].
+  destruct (ev (req d) cnd c) as [[| |ex] c0 evs0| |] eqn:E1; try discriminate.
+  - apply (ev_fail_req ev Hgood) in E1; [|reflexivity]. subst c0.
+    destruct (in_empty c); [discriminate|].
+    destruct (bump_scan (eol_ch (ceol C)) 1 c) as [c2|] eqn:Eb; [|discriminate].
+    apply prepend_noof. apply bump_scan_len in Eb. apply IH; lia.
+  - exfalso. eapply Ht; eauto.
+Qed.
+
+Lemma h_if_apply_term d acts_ r1 c : T1 r1 -> len c <= L -> h_if_apply C ev d acts_ r1 c <> Oof.
+Proof.
+  intros Ht Hc. unfold h_if_apply. destruct (dA d && negb match acts_ with [] => true | _ :: _ => false end); [|apply Ht; exact Hc].
+  pose proof (Ht (set_A (opt_ d) true) c Hc) as K.
+  destruct (ev (set_A (opt_ d) true) r1 c) as [[| |ex] c1 evs1| |]; try discriminate; try congruence. apply inline_result_noof.
+Qed.
+
 Lemma h_rep_min_max_term mn mx d r1 c : T1 r1 -> len c <= L -> h_rep_min_max ev mn mx d r1 c <> Oof.
 Proof.
   intros Ht Hc. unfold h_rep_min_max. apply guard_noof. unfold bind.
@@ -249,13 +262,13 @@ Qed.
 
 Lemma action_match_term ev plain enabled m d r c L :
   (forall d0 c0, len c0 <= L -> plain d0 c0 <> Oof) ->
-  (forall fam, m <> MChangeAction fam /\ m <> MChangeActionAndState fam) ->
+  (forall fam, m = MChangeAction fam \/ m = MChangeActionAndState fam -> ev (set_act d fam) r c <> Oof) ->
   len c <= L -> action_match ev plain enabled m d r c <> Oof.
 Proof.
   intros Hp Hm Hc. destruct m; simpl.
-  - exfalso. destruct (Hm fam) as [K _]. apply K. reflexivity.
+  - apply Hm. left. reflexivity.
   - apply st_scope_noof. apply Hp. exact Hc.
-  - exfalso. destruct (Hm fam) as [_ K]. apply K. reflexivity.
+  - apply st_scope_noof. apply Hm. right. reflexivity.
   - apply Hp; exact Hc.
   - apply Hp; exact Hc.
   - apply Hp; exact Hc.
@@ -272,16 +285,8 @@ Section Term.
 Variable G : grammar.
 Variable C : cfg.
 Hypothesis Hwf : table_wf G.
-Hypothesis HcovT : heads_covered_term G = true.
-Hypothesis Hcfg : cfg_plain_actions C.
+Hypothesis Hcov : table_shape_ok G = true.
 Notation ent := (aentry G).
-
-Lemma Hcov : heads_covered G = true.
-Proof. apply covered_term_covered. exact HcovT. Qed.
-Lemma covered_term_node r nd : nth_error G r = Some nd -> head_covered_term (nhead nd) = true.
-Proof.
-  intros H. unfold heads_covered_term in HcovT. rewrite forallb_forall in HcovT. apply HcovT. eapply nth_error_In; eauto.
-Qed.
 
 Lemma okfh_single h stk t x a : okfh ent h stk t [x] a -> exists b, okh ent h stk x b.
 Proof. intros H. inversion H; subst; eauto. Qed.
@@ -314,39 +319,40 @@ Proof.
     + eapply cn_lower; eauto.
 Qed.
 
-Lemma term_head n self nd stk a d c :
-  nth_error G self = Some nd ->
+(* stated for an arbitrary (head, subs) whose trait is stored under the name self *)
+Lemma term_head n eself (self : rid) h0 subs0 stk a d c :
+  head_direct h0 = true ->
+  ent (rl self) = main_entry G self h0 subs0 ->
+  (forall k, ent (self, S k) = syn_entry G self h0 subs0 (S k)) ->
   okfh ent h (rl self :: stk) (ekind (ent (rl self))) (esubs (ent (rl self))) a ->
   L < n -> len c <= L ->
-  eval_head C ev n self (nhead nd) (nsubs nd) d c <> Oof.
+  eval_head C ev n eself h0 subs0 d c <> Oof.
 Proof.
-  intros Hn Hf Hnl Hc.
-  pose proof (ent_syn G Hcov self nd) as Esyn.
-  rewrite (ent_main G Hcov self nd Hn) in Hf.
-  pose proof (covered_term_node self nd Hn) as Hct.
+  intros Hct Hmain Esyn Hf Hnl Hc.
+  rewrite Hmain in Hf.
   assert (NS : KSeq <> KSor) by discriminate.
   assert (NO : KOpt <> KSor) by discriminate.
   unfold eval_head.
-  destruct (eval_atom (ceol C) (nhead nd) c) as [x|] eqn:Ea; [eapply atom_noof; eauto|].
-  destruct (nhead nd) eqn:Eh; cbn [eval_atom] in Ea; try discriminate Ea; try (destruct pk; discriminate Ea); try discriminate Hct; clear Ea.
+  destruct (eval_atom (ceol C) h0 c) as [x|] eqn:Ea; [eapply atom_noof; eauto|].
+  destruct h0 eqn:Eh; cbn [eval_atom] in Ea; try discriminate Ea; try (destruct pk; discriminate Ea); try discriminate Hct; clear Ea.
   - (* seq *)
     apply (h_seq_term ev Hgood L H0); [|exact Hc].
-    destruct (nsubs nd) as [|s0 ss] eqn:Es; [left; intros r []|].
+    destruct subs0 as [|s0 ss] eqn:Es; [left; intros r []|].
     cbn [main_entry t_seq rls map e_seq ekind esubs] in Hf. eapply (seqs_of h _ KSeq (s0 :: ss)); [lia | exact NS | exact Hf].
   - (* sor *)
-    destruct (nsubs nd) as [|s0 ss] eqn:Es; [discriminate|].
+    destruct subs0 as [|s0 ss] eqn:Es; [discriminate|].
     cbn [main_entry rls map e_sor ekind esubs] in Hf.
     apply (sor_any_term ev Hgood L); [|exact Hc]. intros r Hr.
     destruct (okfh_sor_all ent h _ _ _ Hf (rl r)) as [b [Hb _]].
     { change (rl s0 :: map rl ss) with (map rl (s0 :: ss)). apply in_map. exact Hr. }
     eapply H1; eauto.
   - (* star_partial *)
-    destruct (nsubs nd) as [|s0 ss] eqn:Es.
+    destruct subs0 as [|s0 ss] eqn:Es.
     { exfalso. cbn [main_entry e_opt ekind esubs] in Hf. eapply okfh_bad; exact Hf. }
     cbn [main_entry e_opt ekind esubs] in Hf.
     destruct (okfh_single _ _ _ _ _ Hf) as [b1 Hb1].
     apply okh_inv in Hb1. destruct Hb1 as [h2 [a2 [Eh2 [_ [Hf2 _]]]]].
-    unfold sy in Hf2. rewrite (Esyn 0 Hn) in Hf2. cbn [syn_entry e_seq ekind esubs] in Hf2.
+    unfold sy in Hf2. rewrite (Esyn 0) in Hf2. cbn [syn_entry e_seq ekind esubs] in Hf2.
     assert (HS : exists pre r post, s0 :: ss = pre ++ r :: post /\ (forall x, In x pre -> T1 ev L x) /\ T1 ev L r /\ Cn ev r).
     { destruct (okfh_seq_struct ent h2 _ KSeq NS _ _ Hf2) as [[_ Hall]|[_ [pre [x [post [E [Hpre Hx]]]]]]].
       - exfalso. eapply (on_stack_false h2 _ (rl self)); [apply Hall; apply in_or_app; right; left; reflexivity | right; left; reflexivity].
@@ -362,41 +368,41 @@ Proof.
     + intros d0 c0 Hc0. apply (seq_all_term ev Hgood L H0); [right; exact HS | exact Hc0].
     + intros d0 c0 c1 e He. eapply (seq_all_seqs_cons ev Hgood L); eauto.
   - (* plus *)
-    destruct (nsubs nd) as [|r1 [|r2 rs]] eqn:Es; try discriminate.
+    destruct subs0 as [|r1 [|r2 rs]] eqn:Es; try discriminate.
     cbn [main_entry rls map app e_seq ekind esubs] in Hf.
     assert (K : okh ent h (rl self :: stk) (rl r1) true).
     { inversion Hf as [| ? ? ? ? ? Ht Hr1 | ? ? ? ? ? ? Ht Hr1 Hrest | |]; subst; [exact Hr1|]. exfalso.
       destruct (okfh_single _ _ _ _ _ Hrest) as [b1 Hb1].
       apply okh_inv in Hb1. destruct Hb1 as [h2 [a2 [Eh2 [_ [Hf2 _]]]]].
-      unfold sy in Hf2. rewrite (Esyn 0 Hn) in Hf2. cbn [syn_entry e_opt ekind esubs] in Hf2.
+      unfold sy in Hf2. rewrite (Esyn 0) in Hf2. cbn [syn_entry e_opt ekind esubs] in Hf2.
       destruct (okfh_single _ _ _ _ _ Hf2) as [b3 Hb3].
       eapply (on_stack_false h2 _ (rl self)); [exact Hb3 | right; left; reflexivity]. }
     apply (h_plus_term ev Hgood L H0); [eapply H1; exact K | eapply cn_lower; exact K | exact Hnl | exact Hc].
   - (* partial *)
     cbn [main_entry e_opt ekind esubs] in Hf. unfold h_partial.
-    pose proof (seq_all_term ev Hgood L H0 (req d) (nsubs nd) (seqs_of h _ KOpt _ _ (le_n _) NO Hf) c Hc) as K.
-    destruct (seq_all ev (req d) (nsubs nd) c) as [[| |ex] c1 evs1| |]; try discriminate; congruence.
+    pose proof (seq_all_term ev Hgood L H0 (req d) subs0 (seqs_of h _ KOpt _ _ (le_n _) NO Hf) c Hc) as K.
+    destruct (seq_all ev (req d) subs0 c) as [[| |ex] c1 evs1| |]; try discriminate; congruence.
   - (* at *)
-    destruct (nsubs nd) as [|r1 [|r2 rs]] eqn:Es; try discriminate.
+    destruct subs0 as [|r1 [|r2 rs]] eqn:Es; try discriminate.
     cbn [main_entry rls map e_opt ekind esubs] in Hf. destruct (okfh_single _ _ _ _ _ Hf) as [b1 Hb1].
     unfold h_at. apply look_noof. eapply H1; eauto.
   - (* not_at *)
-    destruct (nsubs nd) as [|r1 [|r2 rs]] eqn:Es; try discriminate.
+    destruct subs0 as [|r1 [|r2 rs]] eqn:Es; try discriminate.
     cbn [main_entry rls map e_opt ekind esubs] in Hf. destruct (okfh_single _ _ _ _ _ Hf) as [b1 Hb1].
     unfold h_at. apply look_noof. eapply H1; eauto.
   - (* until2 *)
-    destruct (nsubs nd) as [|cnd [|r1 [|r2 rs]]] eqn:Es; try discriminate.
+    destruct subs0 as [|cnd [|r1 [|r2 rs]]] eqn:Es; try discriminate.
     cbn [main_entry e_seq ekind esubs] in Hf.
     assert (K : (exists b, okh ent h (rl self :: stk) (rl cnd) b) /\ okh ent h (rl self :: stk) (sy self 1) false).
     { inversion Hf as [| ? ? ? ? ? Ht Hr1 | ? ? ? ? ? ? Ht Hr1 Hrest | |]; subst.
-      - exfalso. apply okh_kind_true in Hr1. apply Hr1. unfold sy. rewrite (Esyn 0 Hn). reflexivity.
+      - exfalso. apply okh_kind_true in Hr1. apply Hr1. unfold sy. rewrite (Esyn 0). reflexivity.
       - split; [eapply okfh_single; exact Hrest | exact Hr1]. }
     destruct K as [[bc Hbc] Hs1].
     apply okh_inv in Hs1. destruct Hs1 as [h2 [a2 [Eh2 [_ [Hf2 _]]]]].
-    unfold sy in Hf2. rewrite (Esyn 0 Hn) in Hf2. cbn [syn_entry e_opt ekind esubs] in Hf2.
+    unfold sy in Hf2. rewrite (Esyn 0) in Hf2. cbn [syn_entry e_opt ekind esubs] in Hf2.
     destruct (okfh_single _ _ _ _ _ Hf2) as [b2 Hb2].
     apply okh_inv in Hb2. destruct Hb2 as [h3 [a3 [Eh3 [_ [Hf3 _]]]]].
-    unfold sy in Hf3. rewrite (Esyn 1 Hn) in Hf3. cbn [syn_entry rls map app e_seq ekind esubs] in Hf3.
+    unfold sy in Hf3. rewrite (Esyn 1) in Hf3. cbn [syn_entry rls map app e_seq ekind esubs] in Hf3.
     assert (Hle : h3 <= h) by lia. clear Eh2 Eh3.
     assert (K : okh ent h3 ((self, 2) :: (self, 1) :: rl self :: stk) (rl r1) true).
     { inversion Hf3 as [| ? ? ? ? ? Ht Hr1 | ? ? ? ? ? ? Ht Hr1 Hrest | |]; subst; [exact Hr1|]. exfalso.
@@ -405,26 +411,26 @@ Proof.
     unfold h_until2. apply guard_noof.
     apply (until2_term ev Hgood L); try lia; [eapply H1; exact Hbc | eapply t1_lower; [exact K | exact Hle] | eapply cn_lower; exact K].
   - (* rep *)
-    destruct (nsubs nd) as [|r1 [|r2 rs]] eqn:Es; try discriminate.
+    destruct subs0 as [|r1 [|r2 rs]] eqn:Es; try discriminate.
     assert (K : exists b1, okh ent h (rl self :: stk) (rl r1) b1).
     { destruct n0; cbn [main_entry t_seq rls map e_seq e_opt ekind esubs] in Hf; eapply okfh_single; exact Hf. }
     destruct K as [b1 Hb1]. unfold h_rep. apply guard_noof. apply (rep_loop_term ev Hgood L); [eapply H1; eauto | exact Hc].
   - (* rep_min_max *)
-    destruct (nsubs nd) as [|r1 [|r2 rs]] eqn:Es; try discriminate.
+    destruct subs0 as [|r1 [|r2 rs]] eqn:Es; try discriminate.
     assert (K : exists b1, okh ent h (rl self :: stk) (rl r1) b1).
     { destruct mn; cbn [main_entry t_seq rls map e_seq e_opt ekind esubs] in Hf; eapply okfh_single; exact Hf. }
     destruct K as [b1 Hb1]. apply (h_rep_min_max_term ev Hgood L); [eapply H1; eauto | exact Hc].
   - (* rep_opt *)
-    destruct (nsubs nd) as [|r1 [|r2 rs]] eqn:Es; try discriminate.
+    destruct subs0 as [|r1 [|r2 rs]] eqn:Es; try discriminate.
     cbn [main_entry rls map e_opt ekind esubs] in Hf. destruct (okfh_single _ _ _ _ _ Hf) as [b1 Hb1].
     unfold h_rep_opt. apply (repopt_loop_term ev Hgood L); [eapply H1; eauto | exact Hc].
   - (* if_then_else *)
-    destruct (nsubs nd) as [|cnd [|t [|e [|? ?]]]] eqn:Es; try discriminate.
+    destruct subs0 as [|cnd [|t [|e [|? ?]]]] eqn:Es; try discriminate.
     cbn [main_entry e_sor ekind esubs] in Hf.
     destruct (okfh_sor_all ent h _ _ _ Hf (sy self 1)) as [b1 [Hb1 _]]; [left; reflexivity|].
     destruct (okfh_sor_all ent h _ _ _ Hf (rl e)) as [b2 [Hb2 _]]; [right; left; reflexivity|].
     apply okh_inv in Hb1. destruct Hb1 as [h2 [a2 [Eh2 [_ [Hf2 _]]]]].
-    unfold sy in Hf2. rewrite (Esyn 0 Hn) in Hf2. cbn [syn_entry e_seq ekind esubs] in Hf2.
+    unfold sy in Hf2. rewrite (Esyn 0) in Hf2. cbn [syn_entry e_seq ekind esubs] in Hf2.
     assert (Hle : h2 <= h) by lia. clear Eh2.
     apply (h_if_then_else_term ev Hgood L H0); try exact Hc; [| | eapply H1; exact Hb2].
     + inversion Hf2 as [| ? ? ? ? ? Ht Hr1 | ? ? ? ? ? ? Ht Hr1 Hrest | |]; subst; eapply t1_lower; eauto.
@@ -432,23 +438,23 @@ Proof.
       * right. eapply cn_lower; exact Hr1.
       * left. destruct (okfh_single _ _ _ _ _ Hrest) as [b3 Hb3]. eapply t1_lower; [exact Hb3 | exact Hle].
   - (* must *)
-    destruct (nsubs nd) as [|r1 [|r2 rs]] eqn:Es; try discriminate.
+    destruct subs0 as [|r1 [|r2 rs]] eqn:Es; try discriminate.
     cbn [main_entry t_seq rls map e_seq ekind esubs] in Hf. destruct (okfh_single _ _ _ _ _ Hf) as [b1 Hb1].
     unfold h_must, raise_at. pose proof (H1 _ _ _ Hb1 (opt_ d) c Hc) as K.
     destruct (ev (opt_ d) r1 c) as [[| |ex] c1 evs1| |]; try discriminate; congruence.
   - (* raise *)
-    destruct (nsubs nd) as [|r1 [|r2 rs]] eqn:Es; discriminate.
+    destruct subs0 as [|r1 [|r2 rs]] eqn:Es; discriminate.
   - (* strict *) exfalso. cbn [main_entry e_bad e_seq ekind esubs] in Hf. eapply okfh_bad; exact Hf.
   - (* star_strict *) exfalso. cbn [main_entry e_bad e_seq ekind esubs] in Hf. eapply okfh_bad; exact Hf.
   - (* rematch *)
-    destruct (nsubs nd) as [|hd rs] eqn:Es; [discriminate|].
+    destruct subs0 as [|hd rs] eqn:Es; [discriminate|].
     cbn [main_entry e_sor ekind esubs] in Hf.
     destruct (okfh_sor_all ent h _ _ _ Hf (rl hd)) as [b1 [Hb1 _]]; [left; reflexivity|].
     destruct (okfh_sor_all ent h _ _ _ Hf (sy self 1)) as [b2 [Hb2 _]]; [right; left; reflexivity|].
     apply (h_rematch_term ev L); [eapply H1; exact Hb1 | | exact Hc].
     intros r Hr.
     apply okh_inv in Hb2. destruct Hb2 as [h2 [a2 [Eh2 [_ [Hf2 _]]]]].
-    unfold sy in Hf2. rewrite (Esyn 0 Hn) in Hf2.
+    unfold sy in Hf2. rewrite (Esyn 0) in Hf2.
     destruct (In_nth_error rs r Hr) as [i Hi].
     assert (Hil : i < length rs) by (apply nth_error_Some; congruence).
     destruct rs as [|r0 rs0] eqn:Ers; [destruct Hr|]. rewrite <- Ers in *.
@@ -457,43 +463,43 @@ Proof.
     destruct (okfh_sor_all ent h2 _ _ _ Hf2' (sy self (2 + i))) as [b3 [Hb3 _]].
     { apply in_map. apply in_seq. lia. }
     apply okh_inv in Hb3. destruct Hb3 as [h3 [a3 [Eh3 [_ [Hf3 _]]]]].
-    unfold sy in Hf3. change (2 + i) with (S (S i)) in Hf3. rewrite (Esyn (S i) Hn) in Hf3.
+    unfold sy in Hf3. change (2 + i) with (S (S i)) in Hf3. rewrite (Esyn (S i)) in Hf3.
     cbn [syn_entry] in Hf3. rewrite Hi in Hf3. cbn [e_seq ekind esubs] in Hf3.
     assert (Hle : h3 <= h) by lia. clear Eh2 Eh3.
     assert (K : exists b4, okh ent h3 ((self, S (S i)) :: (self, 1) :: rl self :: stk) (rl r) b4).
     { inversion Hf3; subst; eauto. }
     destruct K as [b4 Hb4]. eapply t1_lower; [exact Hb4 | exact Hle].
   - (* try_catch_return_false *)
-    destruct (nsubs nd) as [|r1 [|r2 rs]] eqn:Es; try discriminate.
+    destruct subs0 as [|r1 [|r2 rs]] eqn:Es; try discriminate.
     cbn [main_entry t_seq rls map e_seq ekind esubs] in Hf. destruct (okfh_single _ _ _ _ _ Hf) as [b1 Hb1].
     unfold h_try_false. pose proof (H1 _ _ _ Hb1 (opt_ d) c Hc) as K.
     destruct (ev (opt_ d) r1 c) as [[| |ex] c1 evs1| |]; try discriminate; congruence.
   - (* try_catch_raise_nested *)
-    destruct (nsubs nd) as [|r1 [|r2 rs]] eqn:Es; try discriminate.
+    destruct subs0 as [|r1 [|r2 rs]] eqn:Es; try discriminate.
     cbn [main_entry t_seq rls map e_seq ekind esubs] in Hf. destruct (okfh_single _ _ _ _ _ Hf) as [b1 Hb1].
     unfold h_try_nested. pose proof (H1 _ _ _ Hb1 (opt_ d) c Hc) as K.
     destruct (ev (opt_ d) r1 c) as [[| |ex] c1 evs1| |]; try discriminate; try congruence.
     destruct (catches f ex); discriminate.
   - (* state *)
-    destruct (nsubs nd) as [|r1 [|r2 rs]] eqn:Es; try discriminate.
+    destruct subs0 as [|r1 [|r2 rs]] eqn:Es; try discriminate.
     cbn [main_entry t_seq rls map e_seq ekind esubs] in Hf. destruct (okfh_single _ _ _ _ _ Hf) as [b1 Hb1].
     apply st_scope_noof. eapply H1; eauto.
   - (* action *)
-    destruct (nsubs nd) as [|r1 [|r2 rs]] eqn:Es; try discriminate.
+    destruct subs0 as [|r1 [|r2 rs]] eqn:Es; try discriminate.
     cbn [main_entry t_seq rls map e_seq ekind esubs] in Hf. destruct (okfh_single _ _ _ _ _ Hf) as [b1 Hb1]. eapply H1; eauto.
   - (* control *)
-    destruct (nsubs nd) as [|r1 [|r2 rs]] eqn:Es; try discriminate.
+    destruct subs0 as [|r1 [|r2 rs]] eqn:Es; try discriminate.
     cbn [main_entry t_seq rls map e_seq ekind esubs] in Hf. destruct (okfh_single _ _ _ _ _ Hf) as [b1 Hb1]. eapply H1; eauto.
   - (* enable *)
-    destruct (nsubs nd) as [|r1 [|r2 rs]] eqn:Es; try discriminate.
+    destruct subs0 as [|r1 [|r2 rs]] eqn:Es; try discriminate.
     cbn [main_entry t_seq rls map e_seq ekind esubs] in Hf. destruct (okfh_single _ _ _ _ _ Hf) as [b1 Hb1]. eapply H1; eauto.
   - (* disable *)
-    destruct (nsubs nd) as [|r1 [|r2 rs]] eqn:Es; try discriminate.
+    destruct subs0 as [|r1 [|r2 rs]] eqn:Es; try discriminate.
     cbn [main_entry t_seq rls map e_seq ekind esubs] in Hf. destruct (okfh_single _ _ _ _ _ Hf) as [b1 Hb1]. eapply H1; eauto.
   - (* apply *)
-    destruct (nsubs nd); try discriminate. unfold h_apply. destruct (dA d); [apply inline_result_noof | discriminate].
+    destruct subs0; try discriminate. unfold h_apply. destruct (dA d); [apply inline_result_noof | discriminate].
   - (* apply0 *)
-    destruct (nsubs nd); try discriminate. unfold h_apply0. destruct (dA d); [apply inline_result_noof | discriminate].
+    destruct subs0; try discriminate. unfold h_apply0. destruct (dA d); [apply inline_result_noof | discriminate].
 Qed.
 End Head.
 End Term.
@@ -502,42 +508,192 @@ Section Main.
 Variable G : grammar.
 Variable C : cfg.
 Hypothesis Hwf : table_wf G.
-Hypothesis HcovT : heads_covered_term G = true.
-Hypothesis Hcfg : cfg_plain_actions C.
+Hypothesis Hcov : table_shape_ok G = true.
+Variable K : nat.
+Variable rk : nat -> nat.
+Hypothesis Hrk_le : forall fam, rk fam <= K.
+Hypothesis Hrk_dec : forall fam r fam', switches C fam r fam' -> rk fam' < rk fam.
 Notation ent := (aentry G).
+Definition W : nat := K + 2.          (* fuel spent by one node: the match.hpp level plus at most K changes of the action family *)
 
 Definition Prev (L F0 : nat) : Prop := forall r f d c, F0 <= f -> len c < L -> eval G C f d r c <> Oof.
 Definition AtLevel (L F : nat) (r : rid) : Prop := forall f d c, F <= f -> len c <= L -> eval G C f d r c <> Oof.
 
-Lemma node_term L F0 h Fh : Prev L F0 -> F0 <= Fh ->
-  (forall stk r b, okh ent h stk (rl r) b -> AtLevel L Fh r) ->
-  forall stk r b, okh ent (S h) stk (rl r) b -> AtLevel L (S (Fh + L + 1)) r.
+(* node level: match.hpp and the match-level actions around a body that terminates *)
+Lemma node_wrap L F r nd : nth_error G r = Some nd ->
+  (forall f1, F <= f1 -> forall d0 c0, len c0 <= L -> eval_head C (eval G C f1) f1 r (nhead nd) (nsubs nd) d0 c0 <> Oof) ->
+  AtLevel L (F + W) r.
 Proof.
-  intros HP HF IH stk r b Hok f d c Hf Hc. destruct f as [|f1]; [lia|]. simpl.
-  destruct (nth_error G r) as [nd|] eqn:En; [|discriminate]. apply traced_noof.
-  apply okh_inv in Hok. destruct Hok as [h' [a [Eh [Hnin [Hfold _]]]]]. injection Eh as <-.
+  intros En Hbody.
+  assert (A : forall n f d c, rk (dAct d) <= n -> F + n + 1 <= f -> len c <= L -> eval G C f d r c <> Oof).
+  { induction n as [|n IHn]; intros f d c Hn Hf Hc; (destruct f as [|f1]; [lia|]); simpl; rewrite En; apply traced_noof.
+    all: assert (Hplain : forall ak d0 c0, len c0 <= L ->
+            (if nenabled nd then match_hpp C ak (eval_head C (eval G C f1) f1 r (nhead nd) (nsubs nd)) d0 r c0
+             else eval_head C (eval G C f1) f1 r (nhead nd) (nsubs nd) d0 c0) <> Oof)
+          by (intros ak d0 c0 Hc0; destruct (nenabled nd); [apply match_hpp_noof; intros d1|]; apply Hbody; try lia; exact Hc0).
+    all: destruct (acts C (dAct d) r) as [| | |m] eqn:Ea; try (apply Hplain; exact Hc).
+    all: apply action_match_term with (L := L); [intros d0 c0 Hc0; apply (Hplain AKNone); exact Hc0 | | exact Hc].
+    - intros fam Hm. exfalso. assert (Hs : switches C (dAct d) r fam) by (unfold switches; rewrite Ea; destruct Hm as [->| ->]; auto).
+      apply Hrk_dec in Hs. lia.
+    - intros fam Hm. assert (Hs : switches C (dAct d) r fam) by (unfold switches; rewrite Ea; destruct Hm as [->| ->]; auto).
+      apply Hrk_dec in Hs. apply IHn; [simpl; lia | lia | exact Hc]. }
+  intros f d c Hf Hc. apply (A K f d c (Hrk_le _)); [unfold W in Hf; lia | exact Hc].
+Qed.
+
+(* ---------- the must< Rules... > helper nodes under if_must ---------- *)
+Definition SeqA (L Fh : nat) (rs : list rid) : Prop :=
+  (forall r, In r rs -> AtLevel L Fh r) \/
+  (exists pre r post, rs = pre ++ r :: post /\ (forall x, In x pre -> AtLevel L Fh x) /\ AtLevel L Fh r /\ cons_ok G r).
+
+Lemma atlevel_mono L F F' r : F <= F' -> AtLevel L F r -> AtLevel L F' r.
+Proof. intros Hle H f d c Hf Hc. apply H; [lia | exact Hc]. Qed.
+
+Lemma seqa_of L Fh h : (forall stk r b, okh ent h stk (rl r) b -> AtLevel L Fh r) ->
+  forall h2 stk t rs a, h2 <= h -> t <> KSor -> okfh ent h2 stk t (rls rs) a -> SeqA L Fh rs.
+Proof.
+  intros IH h2 stk t rs a Hle Ht Hf.
+  destruct (okfh_seq_struct ent h2 stk t Ht _ _ Hf) as [[_ Hall]|[_ [pre [x [post [E [Hpre Hx]]]]]]].
+  - left. intros r Hr. eapply IH. eapply okh_mono; [apply Hall; unfold rls; apply in_map; exact Hr | exact Hle].
+  - right. unfold rls in E. destruct (map_eq_app_cons rl rs pre x post E) as [l1 [y [l2 [-> [E1 [E2 E3]]]]]]. subst.
+    exists l1, y, l2. split; [reflexivity|]. split; [|split].
+    + intros x Hx'. eapply IH. eapply okh_mono; [apply Hpre; apply in_map; exact Hx' | exact Hle].
+    + eapply IH. eapply okh_mono; eauto.
+    + exists h2, stk. exact Hx.
+Qed.
+
+Lemma seqa_head L Fh x rs : SeqA L Fh (x :: rs) -> AtLevel L Fh x.
+Proof.
+  intros [Hall|[pre [r [post [E [Hpre [Hr _]]]]]]]; [apply Hall; left; reflexivity|].
+  destruct pre as [|p pre]; simpl in E; inversion E; subst; [exact Hr | apply Hpre; left; reflexivity].
+Qed.
+Lemma seqa_tail L Fh x rs : SeqA L Fh (x :: rs) -> cons_ok G x \/ SeqA L Fh rs.
+Proof.
+  intros [Hall|[pre [r [post [E [Hpre [Hr Hc]]]]]]]; [right; left; intros r Hr; apply Hall; right; exact Hr|].
+  destruct pre as [|p pre]; simpl in E; inversion E; subst; [left; exact Hc|].
+  right. right. exists pre, r, post. split; [reflexivity|]. split; [intros y Hy; apply Hpre; right; exact Hy | split; assumption].
+Qed.
+
+Lemma plain_must_term L Fh m : plain_must G m = true -> AtLevel L Fh (unmust G m) -> AtLevel L (Fh + W) m.
+Proof.
+  intros Hm Hr.
+  destruct (plain_must_inv G m Hm) as [nd [r [En [Hen [Eh [Es Eu]]]]]]. rewrite Eu in Hr.
+  apply (node_wrap L Fh m nd En).
+  intros f1 Hf1 d0 c0 Hc0. rewrite Eh, Es. unfold eval_head. cbn [eval_atom]. unfold h_must, raise_at.
+  pose proof (Hr f1 (opt_ d0) c0 Hf1 Hc0) as Q.
+  destruct (eval G C f1 (opt_ d0) r c0) as [[| |ex] c1 evs1| |]; try discriminate; congruence.
+Qed.
+
+Lemma helper_term L F0 Fh m : Prev L F0 -> F0 <= Fh -> must_helper_ok G m = true ->
+  SeqA L Fh (must_rules G [m]) -> AtLevel L (Fh + W + W) m.
+Proof.
+  intros HP HF Hm HS.
+  unfold must_helper_ok in Hm. unfold must_rules in HS.
+  destruct (nth_error G m) as [nd|] eqn:En; [|discriminate].
+  apply andb_true_iff in Hm. destruct Hm as [Hen Hsh].
+  apply (node_wrap L (Fh + W) m nd En).
+  intros f1 Hf1 d0 c0 Hc0.
   assert (Hgood : forall d r c, goodT (dM d) c (eval G C f1 d r c)) by (intros; apply eval_goodT; exact Hwf).
-  assert (Hbody : forall d0 c0, len c0 <= L -> eval_head C (eval G C f1) f1 r (nhead nd) (nsubs nd) d0 c0 <> Oof).
-  { intros d0 c0 Hc0.
-    eapply (term_head G C HcovT (eval G C f1) Hgood L) with (h := h) (stk := stk) (a := a); eauto; try lia.
+  assert (H0 : forall r d1 c1, len c1 < L -> eval G C f1 d1 r c1 <> Oof) by (intros; apply HP; [lia | assumption]).
+  unfold eval_head.
+  destruct (nhead nd) eqn:Eh; try discriminate Hsh; cbn [eval_atom].
+  - (* success *) discriminate.
+  - (* seq *) rewrite forallb_forall in Hsh.
+    apply (h_seq_term (eval G C f1) Hgood L H0); [|exact Hc0].
+    destruct HS as [Hall|[pre [r [post [E [Hpre [Hr Hcn]]]]]]].
+    + left. intros mi Hmi d1 c1 Hc1.
+      apply (plain_must_term L Fh mi (Hsh mi Hmi)); [apply Hall; apply in_map; exact Hmi | lia | exact Hc1].
+    + right. destruct (map_eq_app_cons (unmust G) (nsubs nd) pre r post E) as [l1 [y [l2 [Ey [E1 [E2 E3]]]]]]. subst pre r post.
+      exists l1, y, l2. split; [exact Ey|].
+      assert (Hin : forall x, In x l1 \/ x = y -> In x (nsubs nd)).
+      { intros x [Hx|Hx]; [|subst x]; rewrite Ey; apply in_or_app; [left; exact Hx | right; left; reflexivity]. }
+      split; [|split].
+      * intros x Hx d1 c1 Hc1. apply (plain_must_term L Fh x (Hsh x (Hin x (or_introl Hx)))); [apply Hpre; apply in_map; exact Hx | lia | exact Hc1].
+      * intros d1 c1 Hc1. apply (plain_must_term L Fh y (Hsh y (Hin y (or_intror eq_refl)))); [exact Hr | lia | exact Hc1].
+      * apply (plain_must_cn G C f1 y (Hsh y (Hin y (or_intror eq_refl)))); [|apply le_n].
+        intros f' _. apply (cons_sound G C Hwf Hcov). exact Hcn.
+  - (* must *) destruct (nsubs nd) as [|r0 [|? ?]] eqn:Es; try discriminate Hsh.
+    unfold h_must, raise_at. pose proof (seqa_head L Fh r0 [] HS f1 (opt_ d0) c0 ltac:(lia) Hc0) as Q.
+    destruct (eval G C f1 (opt_ d0) r0 c0) as [[| |ex] c1 evs1| |]; try discriminate; congruence.
+Qed.
+
+(* tgt lies on the eff chain of self, whose trait was visited without a problem at height h *)
+Lemma chain_term L F0 h Fh : Prev L F0 -> F0 <= Fh ->
+  (forall stk r b, okh ent h stk (rl r) b -> AtLevel L Fh r) ->
+  forall k tgt (self : rid) h0 subs0 stk a,
+  eff G k tgt = Some (h0, subs0) ->
+  ent (rl self) = main_entry G self h0 subs0 ->
+  (forall j, ent (self, S j) = syn_entry G self h0 subs0 (S j)) ->
+  okfh ent h (rl self :: stk) (ekind (ent (rl self))) (esubs (ent (rl self))) a ->
+  AtLevel L (Fh + L + 2 + (k + 2) * W) tgt.
+Proof.
+  intros HP HF IH. induction k as [|k IHk]; intros tgt self h0 subs0 stk a Heff Hmain Hsyn Hfold; [discriminate Heff|].
+  destruct (nth_error G tgt) as [nd|] eqn:En; [|intros f d c Hf Hc; destruct f as [|f1]; [lia | simpl; rewrite En; discriminate]].
+  apply (atlevel_mono L (Fh + L + 2 + (k + 2) * W + W)); [lia|].
+  apply (node_wrap L (Fh + L + 2 + (k + 2) * W) tgt nd En).
+  intros f1 Hf1 d0 c0 Hc0.
+  assert (Hgood : forall d r c, goodT (dM d) c (eval G C f1 d r c)) by (intros; apply eval_goodT; exact Hwf).
+  cbn [eff] in Heff. rewrite En in Heff.
+  pose proof (shape_node G tgt nd Hcov En) as Hcv. unfold node_shape_ok in Hcv.
+  assert (Hdirect : head_direct (nhead nd) = true -> eval_head C (eval G C f1) f1 tgt (nhead nd) (nsubs nd) d0 c0 <> Oof).
+  { intros Hd. assert (E : Some (nhead nd, nsubs nd) = Some (h0, subs0)) by (destruct (nhead nd); try discriminate Hd; exact Heff).
+    inversion E; subst h0 subs0.
+    refine (term_head G C (eval G C f1) Hgood L _ h _ _ f1 tgt self (nhead nd) (nsubs nd) stk a d0 c0 Hd Hmain Hsyn Hfold _ Hc0); try lia.
     - intros r0 d1 c1 Hl. apply HP; lia.
     - intros stk0 r0 b0 Hk d1 c1 Hl. eapply IH; eauto. lia.
-    - intros r0 Hk. apply (cons_sound G C Hwf (Hcov G HcovT)). exact Hk. }
-  assert (Hplain : forall ak d0 c0, len c0 <= L ->
-            (if nenabled nd then match_hpp C ak (eval_head C (eval G C f1) f1 r (nhead nd) (nsubs nd)) d0 r c0
-             else eval_head C (eval G C f1) f1 r (nhead nd) (nsubs nd) d0 c0) <> Oof).
-  { intros ak d0 c0 Hc0. destruct (nenabled nd); [apply match_hpp_noof; intros d1|]; apply Hbody; exact Hc0. }
-  destruct (acts C (dAct d) r) as [| | |m] eqn:Ea; try (apply Hplain; exact Hc).
-  apply action_match_term with (L := L); [| | exact Hc].
-  - intros d0 c0 Hc0. apply (Hplain AKNone); exact Hc0.
-  - intros fam. destruct (Hcfg (dAct d) r fam) as [K1 K2]. rewrite Ea in K1, K2. split; congruence.
+    - intros r0 Hk. apply (cons_sound G C Hwf Hcov). exact Hk. }
+  destruct (nhead nd) eqn:Eh; try (apply Hdirect; reflexivity).
+  - (* until< Cond > *)
+    unfold eval_head. cbn [eval_atom].
+    destruct (nsubs nd) as [|cnd [|? ?]] eqn:Es; try discriminate.
+    unfold h_until1. apply guard_noof.
+    apply (until1_term C (eval G C f1) Hgood L); try lia.
+    intros d1 c1 Hc1. eapply (IHk cnd self h0 subs0 stk a); eauto.
+  - (* if_must *)
+    destruct (nsubs nd) as [|cnd [|m [|? ?]]] eqn:Es; try discriminate Hcv.
+    inversion Heff; subst h0 subs0. clear Heff.
+    assert (NS : KSeq <> KSor) by discriminate. assert (NO : KOpt <> KSor) by discriminate.
+    assert (HS : SeqA L Fh (cnd :: must_rules G [m])).
+    { rewrite Hmain in Hfold. destruct dflt.
+      - cbn [main_entry] in Hfold. destruct (must_rules G [m]) as [|r0 rs0] eqn:Er; cbn [is_nilb e_opt ekind esubs] in Hfold.
+        + eapply (seqa_of L Fh h IH h _ KOpt [cnd]); [apply le_n | exact NO | exact Hfold].
+        + destruct (okfh_single G _ _ _ _ _ Hfold) as [b1 Hb1].
+          apply okh_inv in Hb1. destruct Hb1 as [h2 [a2 [Eh2 [_ [Hf2 _]]]]].
+          unfold sy in Hf2. rewrite (Hsyn 0) in Hf2. cbn [syn_entry e_seq ekind esubs] in Hf2. rewrite Er in Hf2.
+          eapply (seqa_of L Fh h IH h2 _ KSeq (cnd :: r0 :: rs0)); [lia | exact NS | exact Hf2].
+      - cbn [main_entry e_seq ekind esubs] in Hfold.
+        eapply (seqa_of L Fh h IH h _ KSeq (cnd :: must_rules G [m])); [apply le_n | exact NS | exact Hfold]. }
+    unfold eval_head. cbn [eval_atom]. unfold h_if_must.
+    pose proof (seqa_head L Fh _ _ HS f1 (if dflt then req d0 else d0) c0 ltac:(lia) Hc0) as K1.
+    destruct (eval G C f1 (if dflt then req d0 else d0) cnd c0) as [[| |ex] c2 evs2| |] eqn:E1; try discriminate; try congruence.
+    assert (K2 : eval G C f1 d0 m c2 <> Oof).
+    { pose proof (ev_le (eval G C f1) Hgood _ _ _ _ _ E1) as L1.
+      destruct (seqa_tail L Fh _ _ HS) as [Hcn|HS2].
+      - apply HP; [lia|]. apply (cons_sound G C Hwf Hcov f1 cnd Hcn) in E1. lia.
+      - apply (helper_term L F0 Fh m HP HF Hcv HS2); [unfold W in *; lia | lia]. }
+    destruct (eval G C f1 d0 m c2) as [[| |ex] c3 evs3| |]; try discriminate; congruence.
+  - (* if_apply *)
+    unfold eval_head. cbn [eval_atom].
+    destruct (nsubs nd) as [|r1 [|? ?]] eqn:Es; try discriminate.
+    apply (h_if_apply_term C (eval G C f1) L); [|exact Hc0].
+    intros d1 c1 Hc1. eapply (IHk r1 self h0 subs0 stk a); eauto.
+Qed.
+
+Lemma node_term L F0 h Fh : Prev L F0 -> F0 <= Fh ->
+  (forall stk r b, okh ent h stk (rl r) b -> AtLevel L Fh r) ->
+  forall stk r b, okh ent (S h) stk (rl r) b -> AtLevel L (Fh + L + 2 + (eff_fuel G + 2) * W) r.
+Proof.
+  intros HP HF IH stk r b Hok.
+  apply okh_inv in Hok. destruct Hok as [h' [a [Eh [Hnin [Hfold _]]]]]. injection Eh as <-.
+  destruct (eff G (eff_fuel G) r) as [[h0 subs0]|] eqn:E.
+  - eapply (chain_term L F0 h Fh HP HF IH (eff_fuel G) r r h0 subs0 stk a E); [eapply ent_main_eff; eauto | intros j; eapply ent_syn_eff; eauto | exact Hfold].
+  - exfalso. rewrite (ent_bad_eff G r E) in Hfold. cbn [e_bad e_seq ekind esubs] in Hfold. eapply okfh_bad; exact Hfold.
 Qed.
 
 Lemma inner L F0 : Prev L F0 -> forall h, exists Fh, F0 <= Fh /\ forall stk r b, okh ent h stk (rl r) b -> AtLevel L Fh r.
 Proof.
   intros HP. induction h as [|h [Fh [HF IH]]].
   - exists F0. split; [lia|]. intros stk r b Hok. apply okh_inv in Hok. destruct Hok as [h' [a [E _]]]. discriminate.
-  - exists (S (Fh + L + 1)). split; [lia|]. eapply node_term; eauto.
+  - exists (Fh + L + 2 + (eff_fuel G + 2) * W). split; [lia|]. eapply node_term; eauto.
 Qed.
 
 Hypothesis Hall : forall r, r < length G -> exists b, okw ent [] (rl r) b.
@@ -554,11 +710,11 @@ Qed.
 
 Lemma level L F0 : Prev L F0 -> exists F, forall r, AtLevel L F r.
 Proof.
-  intros HP. destruct (heights (length G) (le_n _)) as [H K].
+  intros HP. destruct (heights (length G) (le_n _)) as [H HK].
   destruct (inner L F0 HP H) as [Fh [HF IH]].
   exists (S Fh). intros r f d c Hf Hc.
   destruct (Nat.lt_ge_cases r (length G)) as [Hr|Hr].
-  - destruct (K r Hr) as [b Hb]. eapply IH; eauto. lia.
+  - destruct (HK r Hr) as [b Hb]. eapply IH; eauto. lia.
   - destruct f as [|f1]; [lia|]. simpl. apply nth_error_None in Hr. rewrite Hr. discriminate.
 Qed.
 
@@ -571,22 +727,26 @@ Qed.
 End Main.
 
 (* roots G contains the entry of every node *)
-Lemma rl_in_roots G r : heads_covered G = true -> r < length G -> In (rl r) (roots G).
+Lemma rl_in_roots G r : r < length G -> In (rl r) (roots G).
 Proof.
-  intros Hc Hr. unfold roots. apply in_flat_map. exists r. split; [apply in_seq; lia|].
-  destruct (nth_error G r) as [nd|] eqn:En; [|apply nth_error_None in En; lia].
-  unfold node_aids. rewrite (eff_node G Hc r nd En). apply in_map_iff. exists 0. split; [reflexivity | apply in_seq; lia].
+  intros Hr. unfold roots. apply in_flat_map. exists r. split; [apply in_seq; lia|].
+  unfold node_aids. destruct (eff G (eff_fuel G) r) as [[h0 subs0]|]; [|left; reflexivity].
+  apply in_map_iff. exists 0. split; [reflexivity | apply in_seq; lia].
 Qed.
 
-Theorem sound_partial G C : table_wf G -> heads_covered_term G = true -> cfg_plain_actions C ->
+Theorem sound_ranked G C : table_wf G -> table_shape_ok G = true -> cfg_actions_ranked C ->
   problems G = 0 -> forall d r c, exists f, eval G C f d r c <> Oof.
 Proof.
-  intros Hwf Hcov Hcfg Hp d r c.
+  intros Hwf Hcov [K [rk [Hle Hdec]]] Hp d r c.
   assert (Hall : forall r, r < length G -> exists b, okw (aentry G) [] (rl r) b).
-  { intros r0 Hr. apply problems_zero; [exact Hp | apply rl_in_roots; [apply covered_term_covered; exact Hcov | exact Hr]]. }
-  destruct (terminates_upto G C Hwf Hcov Hcfg Hall (len c)) as [F K].
-  exists F. apply K; lia.
+  { intros r0 Hr. apply problems_zero; [exact Hp | apply rl_in_roots; exact Hr]. }
+  destruct (terminates_upto G C Hwf Hcov K rk Hle Hdec Hall (len c)) as [F Q].
+  exists F. apply Q; lia.
 Qed.
+
+Corollary sound_plain G C : table_wf G -> table_shape_ok G = true -> cfg_plain_actions C ->
+  problems G = 0 -> forall d r c, exists f, eval G C f d r c <> Oof.
+Proof. intros Hwf Hcov Hcfg. apply sound_ranked; [exact Hwf | exact Hcov | apply plain_ranked; exact Hcfg]. Qed.
 
 (* ---------- the hypothesis on the configuration is necessary ---------- *)
 Definition loop_cfg : cfg :=
@@ -597,7 +757,7 @@ Proof. induction f as [|f IH]; intros d c; [reflexivity|]. simpl. rewrite IH. re
 Lemma unit_table_wf : table_wf unit_table.
 Proof. intros r nd H. destruct r as [|[|r]]; simpl in H; inversion H; subst; exact I. Qed.
 Theorem change_action_cycle_refutes :
-  exists G C, table_wf G /\ heads_covered_term G = true /\ problems G = 0 /\
+  exists G C, table_wf G /\ table_shape_ok G = true /\ problems G = 0 /\
               exists d r c, forall f, eval G C f d r c = Oof.
 Proof.
   exists unit_table, loop_cfg. split; [exact unit_table_wf|]. split; [reflexivity|]. split; [vm_compute; reflexivity|].
@@ -607,7 +767,7 @@ Qed.
 (* ---------- the hypotheses are satisfiable by a recursive grammar with loops ---------- *)
 (* 0: E = sor< seq< '(' , E , ')' >, plus< 'a' >, star< 'b' , opt< E > > >   (recursion behind a consuming prefix) *)
 Definition ex_table : grammar :=
-  [ mknode HSor [1; 5; 6] true;
+  [ mknode HSor [1; 5; 6; 14] true;
     mknode HSeq [2; 0; 3] true;
     mknode (HOne true PkChar [40%Z]) [] true;
     mknode (HOne true PkChar [41%Z]) [] true;
@@ -616,17 +776,25 @@ Definition ex_table : grammar :=
     mknode HStarPartial [7] false;
     mknode HSeq [8; 9] true;
     mknode (HOne true PkChar [98%Z]) [] true;
-    mknode HPartial [0] false ].
+    mknode HPartial [0] false;
+    (* 10: if_must< 'a', 'b' >   11: internal::must< 'b' >   12: until< ')' >   13: if_apply< plus< 'a' >, A >
+       14: star< seq< 10, 12, 13, opt< E > > > *)
+    mknode (HIfMust false) [4; 11] true;
+    mknode HMust [8] false;
+    mknode HUntil1 [3] true;
+    mknode (HIfApply [0]) [5] true;
+    mknode HStarPartial [15] false;
+    mknode HSeq [10; 12; 13; 9] true ].
 Definition plain_cfg : cfg :=
   mkcfg EolLf (fun _ _ => AKNone) (fun _ _ _ _ => ARet true) (fun _ _ _ => ARet true) (fun _ => false) (fun _ _ => false).
 Lemma ex_table_wf : table_wf ex_table.
 Proof.
-  intros r nd H. do 10 (destruct r as [|r]; [simpl in H; inversion H; subst; exact I|]). destruct r; discriminate H.
+  intros r nd H. do 16 (destruct r as [|r]; [simpl in H; inversion H; subst; exact I|]). destruct r; discriminate H.
 Qed.
 Lemma plain_cfg_ok : cfg_plain_actions plain_cfg.
 Proof. intros fam r fam'. split; discriminate. Qed.
-Lemma ex_table_hyps : table_wf ex_table /\ heads_covered_term ex_table = true /\ cfg_plain_actions plain_cfg /\ problems ex_table = 0.
-Proof. split; [exact ex_table_wf|]. split; [reflexivity|]. split; [exact plain_cfg_ok|]. vm_compute. reflexivity. Qed.
+Lemma ex_table_hyps : table_wf ex_table /\ table_shape_ok ex_table = true /\ cfg_actions_ranked plain_cfg /\ problems ex_table = 0.
+Proof. split; [exact ex_table_wf|]. split; [reflexivity|]. split; [apply plain_ranked; exact plain_cfg_ok|]. vm_compute. reflexivity. Qed.
 (* and the left-recursive variant is reported *)
 Definition ex_table_bad : grammar :=
   [ mknode HSor [1; 2] true; mknode HSeq [3; 0] true; mknode (HOne true PkChar [97%Z]) [] true; mknode HPartial [2] false ].
